@@ -311,20 +311,27 @@ func aggregateRows(selectList sql.SelectList, groupBy []sql.ColumnReference, row
 		return emptyAggregateRow(selectList, rows)
 	}
 
-	// map columns to indexes on the select list
-	colToIdx := map[sql.ColumnReference]int{}
-	for idx, col := range selectList {
-		switch col := col.ValueExpressionPrimary.(type) {
-		case sql.ColumnReference:
-			colToIdx[col] = idx
+	// map GROUP BY columns to indexes on the select list. a GROUP BY column
+	// may spell its select column by name, by qualifier or by alias, the same
+	// way the parser matches them up.
+	groupByIdx := make([]int, len(groupBy))
+	for i, groupByCol := range groupBy {
+		groupByIdx[i] = -1
+		for idx, col := range selectList {
+			if col.Matches(groupByCol) {
+				groupByIdx[i] = idx
+				break
+			}
+		}
+		if groupByIdx[i] == -1 {
+			return nil, fmt.Errorf("%w: %s", sql.ErrInvalidGroupByColumn, groupByCol)
 		}
 	}
 
 	// generate keys for GROUP BY values
 	groupKey := func(row *storage.Row) string {
 		var key string
-		for _, groupByCol := range groupBy {
-			idx := colToIdx[groupByCol]
+		for _, idx := range groupByIdx {
 			key += fmt.Sprintf("%v", row.Vals[idx])
 		}
 		return key
